@@ -13,7 +13,7 @@ RULE = ('Exhaustive sweeps + Hypothesis: (a) for every request class that predic
         'its port must sum to exactly the reply frame, no read may come back short (= a timeout in real life), no byte may be '
         'left unread, for normal and exception replies; (c) base ADU size / exception length of every framing incl. TLS equal '
         'the reference frame overheads. Non-trivial: bit quantity >=2 and not a multiple of 8, any exception reply, any '
-        'transfer; distinct by SHA-1.')
+        'transfer; distinct by SHA-1. Serial clients are also built with generated options: handle_local_echo on a line that echoes every written byte, strict on/off, baud rate 9600..115200.')
 ASSUMPTIONS = ['requests that by specification get no reply (Force Listen Only Mode) are excluded',
                'binary transfers whose reply contains delimiter bytes are excluded (KF-BINARY-FRAMER-DELIMITER-BYTES)']
 BUDGET = {'quick': 1500, 'thorough': 6000}
@@ -88,7 +88,8 @@ def _case(draw):
     return {'t': 'xfer', 'framing': draw(st.sampled_from(['rtu', 'ascii', 'binary'])), 'kind': k, 'fields': f,
             'exception': draw(st.booleans()) and fc != 8, 'uid': draw(st.integers(1, 247)),
             # the judged transaction may follow one that the unit did not answer at all (the client remembers such units)
-            'after_silence': draw(st.sampled_from([False, False, True]))}
+            'after_silence': draw(st.sampled_from([False, False, True])),
+            'serial': draw(transports.serial_options())}
 
 
 def strategy(tier):
@@ -178,7 +179,9 @@ def _run_xfer(case):
         return Outcome([], labels + ['excluded-binary-delimiter'], False)
     with transports.World(peer) as w:
         try:
-            client = ModbusSerialClient(method=framing, port='/dev/null', timeout=1, baudrate=19200)
+            client = ModbusSerialClient(method=framing, port='/dev/null', timeout=1, **transports.serial_kwargs(w, case.get('serial')))
+            if case.get('serial'):
+                labels.append('serial-opts:' + ','.join('%s=%s' % kv for kv in sorted(case['serial'].items())))
             if case.get('after_silence'):
                 labels.append('after-unanswered-transaction')
                 peer.silent = True
@@ -199,7 +202,8 @@ def _run_xfer(case):
     if framing == 'binary' and (refframe.binary_fragile(reply) or refframe.binary_fragile(peer.written[0])):
         return Outcome([], labels + ['excluded-binary-delimiter'], False)
     reads = list(conn.read_requests)
-    asked = sum(a for a, r in reads)
+    echo = len(peer.written[0]) if (case.get('serial') or {}).get('echo') else 0     # the echoed request is read first
+    asked = sum(a for a, r in reads) - echo
     short = [(a, r) for a, r in reads if r < a]
     finding = _kf(kind, f) if not case['exception'] else None
     if finding is None and framing == 'rtu' and kind == 'req:8' and len(reply) != 8 and not case['exception']:
